@@ -275,7 +275,15 @@ func (p *printer) block(sb *strings.Builder, body []Stmt, ind int) {
 				e, _ := p.expr(s.E, 0, true, false, s.T)
 				sb.WriteString(pad + s.N + " " + s.T.String() + " " + op + " " + e + "\n")
 			} else {
-				e, _ := p.expr(s.E, 0, false, false, s.T)
+				noDef := false
+				if !anchored(s.E) {
+					// the variable's type follows only from the default typing of literals
+					// (variables.mdx: `x := 42 // i64`, stateful-variables.mdx: `total $= 0.0 // f64`)
+					if p.hazard("infer-decl-literal") {
+						noDef = true
+					}
+				}
+				e, _ := p.expr(s.E, 0, false, noDef, s.T)
 				sb.WriteString(pad + s.N + " " + op + " " + e + "\n")
 			}
 		case SAssign:
